@@ -5,7 +5,7 @@
    of the same geometric operands give the same result (explicit corollaries at the end).
    Statements only; proofs in proofs/Spec_*.v over the definitions generated from /repo on this run. *)
 From Coq Require Import Reals.
-From VP Require Import Lib RLib Spec Compute Tables Spec_planar Spec_spatial1 Spec_spatial2 Spec_lorentz.
+From VP Require Import Lib RLib Spec Compute Tables Spec_planar Spec_spatial1 Spec_spatial2 Spec_lorentz Spec_lorentz2.
 Open Scope R_scope.
 
 (* ---------------- planar (19 modules; equal/not_equal/isclose are C12, is_* are C13) ---------------- *)
@@ -145,6 +145,34 @@ Proof.
   exact (conj (add_spec4 s1 l1 t1 s2 l2 t2 a1 b1 c1 d1 a2 b2 c2 d2 Ht H1 H2)
               (subtract_spec4 s1 l1 t1 s2 l2 t2 a1 b1 c1 d1 a2 b2 c2 d2 Ht H1 H2)).
 Qed.
+
+(* kinematic quantities of a representable 4-vector, all 12 signatures: functions of the Cartesian denotation only *)
+Theorem C01_lorentz_kinematics : forall s l t a b c d, rep4 s l t a b c d ->
+  let T := st s l t a b c d in let Z := sz s l a b c in let P2 := smag2 s l a b c in
+  numr (T_lorentz_beta s l t a b c d) = Some (sqrt P2 / T) /\
+  numr (T_lorentz_rapidity s l t a b c d) = Some (1 / 2 * ln ((T + Z) / (T - Z))) /\
+  numr (T_lorentz_Mt2 s l t a b c d) = Some (T * T - Z * Z) /\
+  numr (T_lorentz_Mt s l t a b c d) = Some (sqrt (T * T - Z * Z)) /\
+  (P2 <= T * T -> numr (T_lorentz_tau s l t a b c d) = Some (sqrt (T * T - P2))) /\
+  (P2 <= T * T -> numr (T_lorentz_gamma s l t a b c d) = Some (T / sqrt (T * T - P2))) /\
+  (pos_az s a b -> numr (T_lorentz_Et s l t a b c d) = Some (T * srho s a b / sqrt P2)).
+Proof.
+  intros s l t a b c d H. cbv zeta.
+  exact (conj (beta_spec s l t a b c d H) (conj (rapidity_spec s l t a b c d H) (conj (Mt2_spec s l t a b c d H)
+    (conj (Mt_spec s l t a b c d H) (conj (tau_spec s l t a b c d H) (conj (gamma_spec s l t a b c d H) (Et_spec s l t a b c d H))))))).
+Qed.
+
+(* scale (any non-zero factor with t storage, positive with tau storage: a negative time is not representable there) *)
+Theorem C01_lorentz_scale : forall s l t f a b c d, canon_lg l c -> canon_tm t d ->
+  (match t with TT => f <> 0 | TTau => 0 < f end) ->
+  den4 (T_lorentz_scale s l t f a b c d) = Some (sx s a b * f, sy s a b * f, sz s l a b c * f, st s l t a b c d * f).
+Proof. exact scale_spec4. Qed.
+
+(* to_beta3 = p / t for a positive time (t < 0: see the known finding C01-to_beta3-negative-time) *)
+Theorem C01_lorentz_to_beta3 : forall s l t a b c d, rep4 s l t a b c d -> 0 < st s l t a b c d ->
+  den3 (T_lorentz_to_beta3 s l t a b c d)
+  = Some (sx s a b / st s l t a b c d, sy s a b / st s l t a b c d, sz s l a b c / st s l t a b c d).
+Proof. exact to_beta3_spec. Qed.
 
 (* ---------------- explicit storage-independence corollary (the shape every theorem above yields) ---------------- *)
 Theorem C01_dot_same_for_all_storages :
